@@ -74,6 +74,20 @@ META = {
                         "PARTIAL: only program-order prefixes of the writer's write calls are modelled as crash states; the OS may reorder page writes after power loss",
                         "os.File.Read is assumed to fill the 3*size header buffer when the file is long enough"],
     },
+    "C01": {
+        "sections": ["Tables.QuotedQualifierNames", "Tables.LiteralQualifierNames", "Tables.ToggleQualifierNames", "Arith.isLeapYear", "Arith.toOriginLength", "Arith.fromOriginLength", "Arith.Abs"],
+        "rule": "generated records of the writable domain (16 residue counts around the 10/60-residue edges then random < 400, 0..8 features with random INSDC locations built through the API, quoted/literal/toggle/unknown-name/multi-line qualifiers, every header field incl. DBLINK, multi-line DEFINITION/COMMENT/reference subfields, extra fields, CONTIG-only records), 16 edge classes (one aspect at the edge of the domain each), the four corpus files, streams of 2..5 records, and records reached from those by 1..5 random insert/embed/delete/erase/slice/rotate/reverse/complement/concat operations: GenBank.String (= model gb_show), then the reader (= model scan_genbank), then the writer again; date_show/as_date over a sweep of years x 12 months; wrap.Space on 300 strings. Oracle: one record read back, clean end, equal projected fields/table/residues, byte-identical second write, independent framing of streams.",
+        "assumptions": ["projected observables: the slice REGION is compared as the accession line the writer prints; a toggle qualifier is compared by presence (the writer prints no value for it)",
+                        "theorems: the LOCUS date round trip for all valid dates of years 0..9999; the whole-record round trip is decided by correspondence of writer and reader with the model on every generated/corpus/pipeline record plus the oracle",
+                        "the qualifier-name registries are process-global; each case starts from the registries as initialised (the harness restores them), the model threads them through a scan"],
+    },
+    "C07": {
+        "sections": ["Tables.QuotedQualifierNames", "Tables.LiteralQualifierNames", "Tables.ToggleQualifierNames", "Arith.isLeapYear", "Arith.toOriginLength"],
+        "rule": "two hand-written records at EVERY truncation offset and every line (delete/duplicate/swap/blank, indent shrink/strip/grow, value dropped, line cut at 7 columns), generated and corpus records sampled: declared length changed 14 ways, LOCUS spacing (field depth) changed 8 ways, 150..500 byte flips and 50..160 byte insertions/deletions from a hostile alphabet, CRLF whole/mixed/bare CR; every 7th mutant also through the auto-detecting scanner; 1500 (thorough 20000) streams assembled from format fragments; the inputs named by the property; location/date/feature-table strings (valid, every prefix, mutants, random) through AsLocation/AsDate/INSDCTableParser with the model, locator/modifier/selector/molecule/topology strings under recover and a 20 s limit. Oracle: no panic, no hang, a declared length that differs from the residues present is not read cleanly, a truncated record is neither read as complete nor dropped without an error; thorough: scan time on records of doubling size.",
+        "assumptions": ["every scan is a correspondence case for the reader model, so the totality theorems speak about the code that ran",
+                        "theorems so far: AsDate total; request_z = request. Panic-freedom of the whole reader model is decided on the explored inputs by the correspondence (the model's Panic outcome = a Go panic)",
+                        "time proportional to the input is measured (thorough tier), not proved"],
+    },
     "C17": {
         "sections": [],
         "rule": "every residue count 0..160 (thorough 0..300) over a 56-character printable alphabet without '>' x 7 descriptions (empty, with '>', tabs, leading/trailing blanks): Fasta.WriteTo, then the text and its CRLF conversion through the FASTA scanner; 200 random streams of 1..5 records (lengths around the multiples of 70) in LF and CRLF; 400 arbitrary byte strings over {'>',LF,CR,letters}; the corpus GenBank records (and slices of them) written as FASTA and read back. Non-trivial = residues present / any scan; distinct case lines.",
